@@ -117,7 +117,7 @@ type dischargeOpts struct {
 	jobs     int
 }
 
-var reModelLine = regexp.MustCompile(`\(define-fun ([A-Za-z0-9_.$]+) \(\) ([A-Za-z]+)\s+(.*)\)\s*$`)
+var reModelLine = regexp.MustCompile(`\(define-fun ([A-Za-z0-9_.$]+) \(\) ([A-Za-z0-9_]+)\s+(.*)\)\s*$`)
 
 // discharge decides every obligation; covers are expected sat.
 func discharge(w *World, obls []*Obligation, opt dischargeOpts) {
